@@ -193,6 +193,11 @@ func (p *Proxy) Serve(l net.Listener) error {
 	var delay time.Duration
 	for {
 		if p.Closing() {
+			// Returning closes the listener (deferred), and a listener may share state
+			// with the connections it accepted: trafficshape.Listener closes the
+			// buckets all its connections write through. Let the exchanges that are
+			// still in flight finish first.
+			p.conns.Wait()
 			return nil
 		}
 
